@@ -61,6 +61,7 @@ def measure_suppressed():
 class Tables:
     def __init__(self):
         self.lu, self.lm, self.nu, self.ld, self.vs, self.its, self.pl = {}, {}, {}, {}, {}, {}, {}
+        self.ups = {}      # `k, v = x` on a scalar: the interpreter's own unpacking
         self.ix = {}
 
 
@@ -197,10 +198,17 @@ class Mirror:
             return l[0], l[1]
         if k[0] == "obj":
             raise ModelRaise("EType")
-        l = self.values_scalar(x)
-        if len(l) != 2:
-            raise ModelRaise("EValue")
-        return l[0], l[1]
+        # a scalar element of an iterable of pairs is unpacked by the consumer's `for k, v in ...`: the interpreter's
+        # iteration protocol, NOT serdes.itervalues (a mapping unpacks to its keys, a UUID is not iterable)
+        def go():
+            a, b = x
+            return a, b
+        r = self._res(go)
+        self.t.ups[self.reg.enc(x)] = (f"(Ok {coq_pair(self.reg.enc(r[1][0]), self.reg.enc(r[1][1]))})"
+                                       if r[0] == "ok" else f"(Raise {r[1]})")
+        if r[0] == "raise":
+            raise ModelRaise(r[1])
+        return r[1]
 
     def iteritems(self, v):
         k = self.reg.kind_of(v)
@@ -534,6 +542,7 @@ class Group:
             f"Definition rt : runtime := mk_runtime\n  {emit_leaf_tbl(t.lu)}\n  {emit_leaf_tbl(t.lm)}\n"
             f"  {emit_tbl(t.nu, '(pv * res pv)')}\n  {emit_tbl(t.ld, '(pv * res pv)')}\n"
             f"  {emit_tbl(t.vs, '(pv * res (list pv))')}\n  {emit_tbl(t.its, '(pv * res (list (pv * pv)))')}\n"
+            f"  {emit_tbl(t.ups, '(pv * res (pv * pv))')}\n"
             f"  {emit_tbl(t.pl, '(pv * bool)')}\n"
             f"  {coq_list([coq_pair(coq_nat(i), v) for i, v in t.ix.items()], '(nat * pv)')}\n"
             f"  {coq_list([coq_nat(n) for n in self.unhashable_classes()], 'nat')}\n"
